@@ -130,6 +130,11 @@ func observe(prop string, d *DM, obs *simkit.Client, r *mRepo, extra map[string]
 	w := d.w
 	st := d.Stores(obs)
 	lt, v := doOp(prop, w, obs, "list-bundles "+r.Name, func() (interface{}, error) {
+		if t.Bool(1, 3) {
+			var bs model.BundleDescriptors
+			err := core.ListBundlesApply(r.Name, st, func(x model.BundleDescriptor) error { bs = append(bs, x); return nil }, core.BatchSize(t.Pick(1, 2, 3, 1024)), core.ConcurrentList(t.Pick(1, 2, 8)))
+			return bs, err
+		}
 		return core.ListBundles(r.Name, st, core.BatchSize(t.Pick(1, 2, 3, 1024)), core.ConcurrentList(t.Pick(1, 2, 8)))
 	})
 	if v != nil {
